@@ -81,11 +81,4 @@ Example C02_nonvacuous :
     = Some ([(0, 5311826); (1, 6526590); (2, 7700000)], 104534793991599966858) /\
   direct PM s 1 3 = 777 /\ supply PM s 101 = 104534793991599966858 /\
   supply PM s 0 = 3000000000 /\ bal (rs PM s) Collector 0 = 96 /\ bal (rs PM s) Community 5 = 2000.
-Proof.
-  split.
-  - apply Inv_genesis; try reflexivity. intros. unfold g0, share_denom. cbn [supply].
-    assert (X : 100 + id <? 100 = false) by (apply Z.ltb_ge; lia). rewrite X. reflexivity.
-  - split.
-    + repeat constructor; eexists; reflexivity.
-    + vm_compute. repeat split; reflexivity.
-Qed.
+Proof. exact nonvacuous_witness. Qed.
